@@ -1416,6 +1416,8 @@ class SymEval:
                 return vmap(sp.im, base)
             if attr in ('min', 'max'):
                 return lambda axis=None, **k: _reduce_axis(_minof if attr == 'min' else _maxof, base, axis, **k)
+            if attr in ('argmin', 'argmax') and ('numpy.' + attr) in NP_FUNCS:
+                return lambda *a, **k: NP_FUNCS['numpy.' + attr](base, *a, **k)
             if attr in ('dot', 'sum', 'copy', 'transpose', 'conjugate', 'conj', 'reshape', 'tolist', 'all', 'any', 'flatten', 'astype', 'prod'):
                 return {'dot': lambda b: np.dot(base, b), 'sum': lambda axis=None, **k: _sum(base, axis, **k), 'copy': lambda: base.copy(),
                         'transpose': lambda *a: base.transpose(*a), 'conjugate': lambda: vmap(sp.conjugate, base), 'conj': lambda: vmap(sp.conjugate, base),
